@@ -361,6 +361,11 @@ func (h *vHarness) concFn(st vStep, ev *vEvent) (func() vRes, bool) {
 }
 
 func (h *vHarness) execConc(i int, st vStep, ev *vEvent) {
+	if atomic.LoadInt32(&vAnomalies) >= 25 {
+		ev.Res = "SKIPPED" // see vAnomalies
+		h.dead = true
+		return
+	}
 	c := &vConc{h: h, byGid: map[string]*vProc{}}
 	h.fireDeadlines()
 	now := int(verifGetTicks())
@@ -426,6 +431,12 @@ func (h *vHarness) execConc(i int, st vStep, ev *vEvent) {
 	if hung {
 		h.dead = true
 		ev.Res = "HANG"
+	}
+	for _, p := range c.procs {
+		if p.fn != nil && p.state != "done" {
+			atomic.AddInt32(&vAnomalies, 1)
+			h.dead = true
+		}
 	}
 	ev.Exec, ev.Drift = c.exec, c.drift
 	_ = connectivity.Ready
